@@ -378,6 +378,17 @@ func (a *BigInt) M__ipow__(other, modulus Object) (Object, error) {
 	return a.M__pow__(other, modulus)
 }
 
+// bigLsh returns a << n or MemoryError if the result has more digits
+// than can be allocated
+func bigLsh(a *big.Int, n uint) (res *BigInt, err error) {
+	defer func() {
+		if r := recover(); r != nil {
+			res, err = nil, ExceptionNewf(MemoryError, "shifted integer is too long")
+		}
+	}()
+	return (*BigInt)(new(big.Int).Lsh(a, n)), nil
+}
+
 func (a *BigInt) M__lshift__(other Object) (Object, error) {
 	if b, ok := ConvertToBigInt(other); ok {
 		if (*big.Int)(b).Sign() < 0 {
@@ -387,7 +398,11 @@ func (a *BigInt) M__lshift__(other Object) (Object, error) {
 		if err != nil {
 			return nil, err
 		}
-		return (*BigInt)(new(big.Int).Lsh((*big.Int)(a), uint(bb))).MaybeInt(), nil
+		res, err := bigLsh((*big.Int)(a), uint(bb))
+		if err != nil {
+			return nil, err
+		}
+		return res.MaybeInt(), nil
 	}
 	return NotImplemented, nil
 }
@@ -401,7 +416,11 @@ func (a *BigInt) M__rlshift__(other Object) (Object, error) {
 		if err != nil {
 			return nil, err
 		}
-		return (*BigInt)(new(big.Int).Lsh((*big.Int)(b), uint(aa))).MaybeInt(), nil
+		res, err := bigLsh((*big.Int)(b), uint(aa))
+		if err != nil {
+			return nil, err
+		}
+		return res.MaybeInt(), nil
 	}
 	return NotImplemented, nil
 }
